@@ -145,7 +145,7 @@ func classifyRet(state []byte, err error) string {
 
 // runBlockTx runs the real blocktransactions.Migrator on (a copy of) d.
 func runBlockTx(d *memory.Database, p btPlan, capture bool) btOutcome {
-	return runBlockTxD(d, p, capture, 15*time.Second, true)
+	return runBlockTxD(d, p, capture, 6*time.Second, true)
 }
 
 // runBlockTxD: deadline d; sticky = a hang stops all later runs (its goroutines may spin). Runs with
@@ -189,7 +189,7 @@ func runMigrator(m migration.Migration, state []byte, d *memory.Database, p btPl
 		out.errText = "skipped: an earlier run of the migration did not return"
 		return out
 	}
-	finished := lib.WithDeadline(deadline, func() {
+	finished := s.runWatched(deadline, 120*time.Second, func() {
 		e, panicked, _ := lib.Try(func() error {
 			var e2 error
 			if e0 := m.Before(state); e0 != nil {
@@ -206,7 +206,7 @@ func runMigrator(m migration.Migration, state []byte, d *memory.Database, p btPl
 	switch {
 	case !finished:
 		out.ret = "hang"
-		out.errText = fmt.Sprintf("Migrate did not return within %v", deadline)
+		out.errText = fmt.Sprintf("Migrate did not return and the store saw no activity for %v", deadline)
 		if sticky {
 			hungOnce.Store(true)
 		}
